@@ -121,3 +121,6 @@ emit("F24b-named-slice-decorator-bypassed","C12","C12.group-decorated-content",h
 # F25 (known, not repaired): IsCycleDetected looks through a user error that wraps a foreign cycle rejection
 h=H(); h.provide(0,[],["V0"],err=True,faults={"1":"digcycerr"}); h.invoke(0,["V0"])
 emit("F25-foreign-cycle-misclassified","C13","C13.foreign-cycle-misclassified",h,"constructor returns an error wrapping another container's cycle rejection: IsCycleDetected(err) is true",kind="hist:faults")
+# F28 (known, not repaired): errors.Is with a raw foreign dig "missing dependencies" error as the target panics
+h=H(); h.provide(0,[],["V0"],err=True,faults={"1":"rawdigerr"}); h.invoke(0,["V0"])
+emit("F28-errors-is-panics","C13","C13.errors-is-panics",h,"constructor returns another container's missing-dependencies error as it is: errors.Is(err, thatError) panics (comparing uncomparable type dig.errMissingTypes)",kind="hist:faults")
